@@ -757,7 +757,10 @@ fn collapse_root_stack_to<NumericTypes: EvalexprNumericTypes>(
     loop {
         if let Some(mut potential_higher_root) = root_stack.pop() {
             // TODO I'm not sure about this >, as I have no example for different sequence operators with the same precedence
-            if potential_higher_root.operator().precedence() > collapse_goal.operator().precedence()
+            // Only sequences are collapsed, the root node of the current brace level stays on the stack
+            if potential_higher_root.operator().is_sequence()
+                && potential_higher_root.operator().precedence()
+                    > collapse_goal.operator().precedence()
             {
                 potential_higher_root.children.push(root);
                 root = potential_higher_root;
@@ -936,8 +939,25 @@ pub(crate) fn tokens_to_operator_tree<NumericTypes: EvalexprNumericTypes>(
                         } else {
                             // If the new sequence doesn't have a higher precedence, then all sequences with a higher precedence are collapsed below this one
                             root = collapse_root_stack_to(&mut root_stack, root, &node)?;
-                            node.children.push(root);
-                            root_stack.push(node);
+                            match root_stack.pop() {
+                                Some(mut lower_root)
+                                    if mem::discriminant(lower_root.operator())
+                                        == mem::discriminant(node.operator()) =>
+                                {
+                                    // The collapsed sequence is the last element of an already open sequence of the same kind as the new one
+                                    lower_root.children.push(root);
+                                    lower_root.children.push(Node::root_node());
+                                    root_stack.push(lower_root);
+                                },
+                                Some(lower_root) => {
+                                    // The collapsed sequence is the first element of the new sequence
+                                    root_stack.push(lower_root);
+                                    node.children.push(root);
+                                    node.children.push(Node::root_node());
+                                    root_stack.push(node);
+                                },
+                                None => return Err(EvalexprError::UnmatchedRBrace),
+                            }
                         }
                     }
                 // println!("Stack after sequence operation: {:?}", root_stack);
